@@ -69,7 +69,9 @@ CONSTANTS
 ModeNames == {"repeatingProducer",  \* same stage, producer repeats: consumable when it has output, new output from the timeline
               "plainProducer",      \* same stage, producer does not repeat: producersHaveOutputSinceDate is always True
               "earlierStage",       \* producers of an earlier stage: always consumable, always new output
-              "noCheck"}            \* check-producer-output: false (same stage): no output check at all
+              "noCheck",            \* check-producer-output: false (same stage): no output check at all
+              "mixedProducers"}     \* same stage, one producer repeats and one does not: consumable when BOTH have output;
+                                    \* Job.producersHaveOutputSinceDate is True because of the one that does not repeat
 DeviationNames == {"stale-suicide", "stale-check"}
 
 (* SHAPES: who the producers are and how their end reaches the engine.                                          *)
@@ -142,6 +144,8 @@ Min2(a, b) == IF a < b THEN a ELSE b
 (* invariants below are evaluated on the implementation's histories by the  *)
 (* very same definitions.                                                   *)
 HInit == [anyOut   |-> FALSE,  \* producer output exists
+          outP     |-> FALSE,  \* ... of the producer that does not repeat / of the repeating one (they only differ
+          outR     |-> FALSE,  \*     for "mixedProducers")
           lastOut2 |-> None2,  \* stamp of the last appearance of new output
           nOut     |-> 0,
           pdone    |-> FALSE,  \* notify_all_producers_finished was called
@@ -159,11 +163,15 @@ HInit == [anyOut   |-> FALSE,  \* producer output exists
           bad      |-> FALSE,  \* an execution was started while nothing was consumable
           fired    |-> FALSE,  \* the kill delay expired
           ext      |-> FALSE,  \* kill() was called from outside
-          nFault   |-> 0]      \* checks of the producer's directory that failed with a filesystem error
+          nFault   |-> 0,      \* checks of the producer's directory that failed with a filesystem error
+          fRt      |-> -1,     \* repeatRetries when the attempt whose OUTPUT check failed began (-1: no such attempt in progress)
+          charged  |-> FALSE]  \* such an attempt was charged to repeatRetries
 
-Consumable(hh, mode) == mode = "earlierStage" \/ hh.anyOut
+Consumable(hh, mode) == IF mode = "mixedProducers" THEN hh.outP /\ hh.outR ELSE mode = "earlierStage" \/ hh.anyOut
 
-HOutput(hh, s2)  == [hh EXCEPT !.anyOut = TRUE, !.lastOut2 = s2, !.nOut = @ + 1]
+(* src: which producer wrote -- "P" the plain one, "R" the repeating one, "B" both ("-": there is only one) *)
+HOutput(hh, s2, src) == [hh EXCEPT !.anyOut = TRUE, !.lastOut2 = s2, !.nOut = @ + 1,
+                                   !.outP = @ \/ src # "R", !.outR = @ \/ src # "P"]
 (* nl: number of producers whose end the observer of the run sees as events (NLiveSeen) *)
 HPFinish(hh, p, t, nl) == LET f == hh.fin \cup {p} IN
                           [hh EXCEPT !.fin = f, !.done = @ \/ Cardinality(f) >= nl,
@@ -173,6 +181,8 @@ HNotify(hh, t, nl) == [hh EXCEPT !.pdone = TRUE, !.early = @ \/ Cardinality(hh.f
 HTimer(hh)       == [hh EXCEPT !.fired = TRUE]
 HExt(hh)         == [hh EXCEPT !.ext = TRUE]
 HFault(hh)       == [hh EXCEPT !.nFault = @ + 1]
+HOFault(hh, rt)  == [hh EXCEPT !.nFault = @ + 1, !.fRt = rt]                      \* the output check of an attempt failed
+HYield(hh, rt)   == [hh EXCEPT !.fRt = -1, !.charged = @ \/ (hh.fRt >= 0 /\ rt < hh.fRt)]   \* the monitor thread yields next
 HLaunch(hh, t, mode) ==
     [hh EXCEPT !.everL = TRUE, !.nL = @ + 1, !.lastL = t, !.lastSaw = hh.pdone,
                !.nAfter = IF hh.pdone THEN @ + 1 ELSE @,
@@ -185,6 +195,10 @@ HTaskEnd(hh, rc) == [hh EXCEPT !.succAfter = @ \/ (hh.lastSaw /\ rc = "ok")]
 (* 0. the engine is told that its producers have finished only when every producer component that was     *)
 (*    alive when the observer was staged in (identified by stage and name) has finished                    *)
 P0_NotifiedOnlyWhenFinished(hh) == ~hh.early
+
+(* 4. an attempt whose output check failed with a filesystem error decides nothing: it is never charged to  *)
+(*    repeatRetries (otherwise a transient fault after the producers finished stops the engine early)        *)
+P4_FaultNeverCharged(hh) == ~hh.charged
 
 (* 1. never executes before there is producer output it can consume *)
 P1_NoExecutionBeforeOutput(hh) == ~hh.bad
@@ -211,14 +225,16 @@ P3_StopsForAReason(hh, alive, rt) ==
 CycleWait(c) == LET w == PollTime * ((c.R + PollTime - 1) \div PollTime) IN IF w < PollTime THEN PollTime ELSE w
 StopBound(c) == LET byRetries == 2 * (c.maxd + (c.retries0 + 2) * (CycleWait(c) + c.maxd) + CycleWait(c))
                 IN IF c.die > 0 THEN Min2(byRetries, c.die + 2) ELSE byRetries
-P3_StopsInTime(hh, alive, c, t) == (hh.done /\ alive) => t <= hh.tN + StopBound(c)
+(* an attempt aborted by a filesystem fault costs the monitor's recovery sleeps (30 s + 5 s) *)
+FaultSleep == 30
+P3_StopsInTime(hh, alive, c, t) == (hh.done /\ alive) => t <= hh.tN + StopBound(c) + (FaultSleep + PollTime) * hh.nFault
 
 ---------------------------------------------------------------------------
 (* exitReason() / isAlive() of RepeatingEngine (lastExecution is only used by restart(), not modelled) *)
 Alive == ~(cancel /\ (proc = "none" \/ kc))
 ExitReason == IF Alive THEN "none" ELSE IF proc # "none" /\ procRc = "rexh" THEN "ResourceExhausted" ELSE "Success"
 
-Blocked == pc \in {"idle", "poll", "exec"} /\ now < wakeAt
+Blocked == pc \in {"idle", "poll", "exec", "fs1", "fs2"} /\ now < wakeAt
 InWindow == pc = "window" /\ AllowWindow
 Stamp == IF pc = "window" THEN 2 * now ELSE 2 * now + 1
 (* a timer that is due at a whole instant (it was armed inside a WINDOW) fires before the monitor's step at that instant *)
@@ -274,19 +290,43 @@ Poll ==
                    procKilled, isNew, pdwis, didExec, h, dev, sched, obs>>
 
 (* EngineTaskController(lastAction=False) up to the output check *)
+(* The output check lists the working directory of the repeating producer ("repeatingProducer").  If that     *)
+(* fails with a transient filesystem error the exception leaves EngineTaskController: the attempt is ABORTED  *)
+(* -- nothing is decided, in particular no retry is consumed -- and CreateMonitor sleeps 30 s + 5 s and calls *)
+(* the action again (FaultRecover1/2).  At most MaxFaults attempts are hit (CreateMonitor itself gives up     *)
+(* after 5 consecutive ones, which is not modelled).                                                          *)
 Begin ==
     /\ pc = "begin"
     /\ IF suicide
        THEN \* `if lastAction or self._suicide: self.kernelCompleted = lastAction` -- only reachable after "stale-suicide"
             /\ kc' = FALSE /\ AfterAction(cancel)
-            /\ UNCHANGED <<isNew>>
+            /\ UNCHANGED <<isNew, h, sched>>
        ELSE LET forced == pdone /\ now - lastL > ForceWait
                 stub == cfg.mode # "noCheck" /\ ~forced       \* job.producersHaveOutputSinceDate is called
-            IN /\ isNew' = IF cfg.mode = "repeatingProducer" /\ ~forced THEN OutputSince(lastL) ELSE TRUE
-               /\ pc' = IF stub THEN "window" ELSE "sample"
-               /\ UNCHANGED <<kc, begun, wakeAt>>
+                lists == stub /\ cfg.mode = "repeatingProducer"
+            IN \E raises \in (IF lists /\ h.nFault < MaxFaults THEN {FALSE, TRUE} ELSE {FALSE}) :
+               /\ sched' = IF lists /\ MaxFaults > 0 THEN Rec(sched, [a |-> "ocheck", s |-> IF raises THEN 1 ELSE 0]) ELSE sched
+               /\ IF raises
+                  THEN /\ pc' = "fs1" /\ wakeAt' = now + FaultSleep /\ h' = HYield(HOFault(h, retries), retries)
+                       /\ UNCHANGED <<isNew, kc, begun>>
+                  ELSE /\ isNew' = IF cfg.mode = "repeatingProducer" /\ ~forced THEN OutputSince(lastL) ELSE TRUE
+                       /\ pc' = IF stub THEN "window" ELSE "sample"
+                       /\ UNCHANGED <<kc, begun, wakeAt, h>>
     /\ UNCHANGED <<cfg, now, retries, cancel, suicide, consume, pdone, timer2, lastL, lastF, proc, procRc,
-                   procKilled, pdwis, didExec, h, dev, sched, obs>>
+                   procKilled, pdwis, didExec, dev, obs>>
+
+(* time.sleep(30) is over: MonitorActionError is raised into the monitor's outer handler, which sleeps 5 s *)
+FaultRecover1 ==
+    /\ pc = "fs1" /\ now = wakeAt /\ ~TimerFirst
+    /\ pc' = "fs2" /\ wakeAt' = now + PollTime
+    /\ UNCHANGED <<cfg, now, retries, cancel, suicide, kc, consume, pdone, timer2, lastL, lastF, begun, proc, procRc,
+                   procKilled, isNew, pdwis, didExec, h, dev, sched, obs>>
+(* ... and goes round its loop: the action again (the last action when cancelled meanwhile) *)
+FaultRecover2 ==
+    /\ pc = "fs2" /\ now = wakeAt /\ ~TimerFirst
+    /\ pc' = IF cancel THEN "last" ELSE "begin"
+    /\ UNCHANGED <<cfg, now, wakeAt, retries, cancel, suicide, kc, consume, pdone, timer2, lastL, lastF, begun, proc, procRc,
+                   procKilled, isNew, pdwis, didExec, h, dev, sched, obs>>
 
 (* sampling of producers_done_when_i_started, canConsume(), the launch decision.                            *)
 (* When the producers' last output AND the notification arrived inside the WINDOW, the answer of the output   *)
@@ -308,7 +348,7 @@ FaultModes == {"plainProducer", "noCheck"}
 Sample ==
     /\ pc \in {"window", "sample"}
     /\ LET lists == ~consume /\ cfg.mode # "earlierStage"                          \* canConsume() lists the producer's directory
-           truth == IF h.anyOut THEN "has-output" ELSE "no-output"
+           truth == IF Consumable(h, cfg.mode) THEN "has-output" ELSE "no-output"
            mayFault == lists /\ cfg.mode \in FaultModes /\ ~h.anyOut /\ h.nFault < MaxFaults
            outcomes == IF ~lists THEN {"-"} ELSE IF mayFault THEN {truth, "raises"} ELSE {truth}
            stale == pdone /\ ~isNew /\ pc = "window" /\ h.lastOut2 = 2 * now     \* a second look would see new output
@@ -370,7 +410,7 @@ LastAction ==
     /\ UNCHANGED <<cfg, now, wakeAt, retries, cancel, suicide, consume, pdone, timer2, lastL, lastF, begun, proc, procRc,
                    procKilled, isNew, pdwis, didExec, h, dev, sched, obs>>
 
-MonitorStep == Run \/ Poll \/ Begin \/ Sample \/ TaskEnd \/ Decide \/ LastAction
+MonitorStep == Run \/ Poll \/ Begin \/ FaultRecover1 \/ FaultRecover2 \/ Sample \/ TaskEnd \/ Decide \/ LastAction
 
 ---------------------------------------------------------------------------
 (* The environment *)
@@ -399,14 +439,16 @@ ProducerFinishes(p) ==
 NotifyProducersFinished == \E p \in 1..4 : ProducerFinishes(p)
 
 (* a producer writes new output (only while the producers are running) *)
-NewOutput ==
+NewOutputFrom(src) ==
     /\ LiveSet(cfg.shape) \ h.fin # {} /\ h.nOut < MaxOutputs
+    /\ src \in (IF cfg.mode = "mixedProducers" THEN {"P", "R", "B"} ELSE {"-"})
     /\ Blocked \/ (InWindow /\ (now > lastL \/ PreRunOutput))   \* at the primed instant a WINDOW output would tie with
     /\ pc = "idle" => PreRunOutput                              \* lastLaunched: it counts as output that predates run()
-    /\ h' = HOutput(h, Stamp)
-    /\ sched' = Rec(sched, [a |-> "output", s |-> Stamp])
+    /\ h' = HOutput(h, Stamp, src)
+    /\ sched' = Rec(sched, [a |-> "output", s |-> Stamp, src |-> src])
     /\ UNCHANGED <<cfg, now, pc, wakeAt, retries, cancel, suicide, kc, consume, pdone, timer2, lastL, lastF, begun, proc,
                    procRc, procKilled, isNew, pdwis, didExec, dev, obs>>
+NewOutput == \E src \in {"-", "P", "R", "B"} : NewOutputFrom(src)
 
 (* the rx timer of kill-after-producers-done-delay fires: suicide() *)
 KillDelay ==
@@ -452,6 +494,7 @@ Spec == Init /\ [][Next]_vars /\ WF_vars(Next)
 (* Properties of C13 on the model *)
 NotifiedOnlyWhenFinished == P0_NotifiedOnlyWhenFinished(h)
 NoExecutionBeforeOutput == P1_NoExecutionBeforeOutput(h)
+FaultNeverCharged       == P4_FaultNeverCharged(h)
 FinalOutputObserved     == P2_FinalOutputObserved(h, Alive, cfg.mode)
 BoundedAttempts         == P3_BoundedAttempts(h, cfg)
 StopsForAReason         == P3_StopsForAReason(h, Alive, retries)
@@ -459,7 +502,7 @@ StopsInTime             == P3_StopsInTime(h, Alive, cfg, now)
 EventuallyStops         == h.done ~> ~Alive
 
 TypeOK ==
-    /\ pc \in {"idle", "poll", "begin", "window", "sample", "exec", "decide", "last", "dead"}
+    /\ pc \in {"idle", "poll", "begin", "fs1", "fs2", "window", "sample", "exec", "decide", "last", "dead"}
     /\ retries \in 0..cfg.retries0 /\ now >= -1 /\ wakeAt >= 0
     /\ proc \in {"none", "running", "stale"} /\ procRc \in {"-", "ok", "fail", "rexh", "killed"}
     /\ pdone = h.pdone /\ h.done = h.pdone /\ (h.fin = LiveSet(cfg.shape)) = pdone /\ (proc = "running") = (pc = "exec")
@@ -481,9 +524,9 @@ W_PlumbingNotified == ~(pc = "dead" /\ cfg.shape = "two" /\ h.fin = {1, 2} /\ h.
 W_WindowNotify == ~(pc = "window" /\ pdone /\ h.tN = now /\ h.lastOut2 = 2 * now)
 
 (* the observation a harness can take from the real engine whenever the monitor thread is blocked or gone *)
-Blk == CASE pc = "idle" -> "idle" [] pc = "poll" -> "sleep" [] pc = "exec" -> "wait"
+Blk == CASE pc = "idle" -> "idle" [] pc \in {"poll", "fs1", "fs2"} -> "sleep" [] pc = "exec" -> "wait"
          [] pc = "window" -> "window" [] pc = "dead" -> "done" [] OTHER -> "running"
-ObsNow == [now |-> now, blk |-> Blk, wake |-> IF pc \in {"idle", "poll", "exec"} THEN wakeAt ELSE now,
+ObsNow == [now |-> now, blk |-> Blk, wake |-> IF pc \in {"idle", "poll", "exec", "fs1", "fs2"} THEN wakeAt ELSE now,
            alive |-> Alive, reason |-> ExitReason, retries |-> retries, cancel |-> cancel,
            suicide |-> suicide, consume |-> consume, pdone |-> pdone, proc |-> proc, rc |-> procRc, nl |-> h.nL,
            ll |-> lastL]
